@@ -62,6 +62,10 @@ theorem query_error_routes_nowhere (m : Option Bytes) (lv : Bytes → Bool) (sh 
     store_LookupBackend true m lv sh = none ∧ store_lookupSharedBackend true m lv sh = none := by
   simp [store_LookupBackend, store_lookupSharedBackend, Id.run, pure]
 
+/-- T1: `proxyHandler` routes on the decoded URL path, so every escaped spelling of a path is
+    routed alike ("the choice depends only on backends, user and path"). -/
+theorem routes_on_decoded_path : app_lookupPathArg = "r.URL.Path" := by decide
+
 /-- a user's own match always takes precedence: shared backends are not consulted -/
 theorem user_before_shared (s : Store) (user path : Bytes) (now : Int) (b : Bytes)
     (h : mostSpecific path (ofUser s user) = some b) :
